@@ -713,6 +713,18 @@ func (c *Conn) WriteMessage(messageType MessageType, data []byte) error {
 		}
 	}
 
+	if c.sendQueue != nil && c.sendQueueSize > 0 {
+		// all the fragments of a message must be queued or none of them,
+		// else a partial message would be sent and corrupt the stream.
+		nFrames := 1
+		if max := c.Engine.MaxWebsocketFramePayloadSize; max > 0 && len(data) > max {
+			nFrames = (len(data) + max - 1) / max
+		}
+		if len(c.sendQueue)+nFrames > int(c.sendQueueSize) {
+			return ErrMessageSendQuqueIsFull
+		}
+	}
+
 	if len(data) > 0 {
 		sendOpcode := true
 		sendCompress := compress
